@@ -343,3 +343,22 @@ pub proof fn lemma_step_extends(rc: Rc, m: LzS, w: Win, upd: bool)
     assert forall|b: u8| w.out.is_prefix_of(#[trigger] w.out.push(b)) by {}
     reveal(sp_literal);
 }
+
+// ---- the initial model: every probability is kBitModelTotal / 2 = 0x400, state 0, reps 0 -------
+pub open spec fn fresh_probs(n: nat) -> Seq<u16> { Seq::new(n, |i: int| 0x400u16) }
+pub open spec fn fresh_lens() -> LenS {
+    LenS { choice: 0x400, choice2: 0x400, low: Seq::new(16, |i: int| fresh_probs(8)), mid: Seq::new(16, |i: int| fresh_probs(8)),
+           high: fresh_probs(256) }
+}
+pub open spec fn fresh_model(lc: nat, lp: nat, pb: nat) -> LzS {
+    LzS {
+        lc: lc, lp: lp, pb: pb,
+        lit: Seq::new(pow2(lc + lp), |i: int| fresh_probs(0x300)),
+        pos_slot: Seq::new(4, |i: int| fresh_probs(64)),
+        align: fresh_probs(16), pos_decoders: fresh_probs(115), is_match: fresh_probs(192),
+        is_rep: fresh_probs(12), is_rep_g0: fresh_probs(12), is_rep_g1: fresh_probs(12), is_rep_g2: fresh_probs(12),
+        is_rep0_long: fresh_probs(192),
+        len: fresh_lens(), rep_len: fresh_lens(),
+        state: 0, rep: seq![0nat, 0nat, 0nat, 0nat],
+    }
+}
